@@ -54,7 +54,7 @@ fn status_str(r: &anyhow::Result<similari::track::TrackStatus>) -> &'static str 
 }
 
 fn model_status(t: &MTrack) -> &'static str {
-    t.attrs.status().unwrap_or("error")
+    t.status().unwrap_or("error")
 }
 
 fn model_lookup(q: &HL, t: &MTrack) -> bool {
